@@ -62,7 +62,7 @@ static void case_class(const case_t *c, char *out, size_t n)
         else if (c->f == F_ED && i >= 0 && i < X_NED) nm = ed_named[i];
         else if (c->f == F_DH && i >= 0 && i < Y_NDH) nm = dh_named[i];
     }
-    snprintf(out, n, "%s|%d|%s|%s", fam_name[c->f], c->k, hash_name[c->h < 0 ? H_N : c->h], nm);
+    snprintf(out, n, "%s|%s", fam_name[c->f], nm);
 }
 
 /* ------------------------------------------------------------ sandboxing */
@@ -124,7 +124,9 @@ static void group_cases(const grp_t *g)
         for (i = g->lo; i < g->hi && i < K->k; i++)
         {
             unsigned char vals[256];
-            int nv = byte_values(em[i], all, pss, vals);
+            /* RSA-4096: the full alphabet on the structured part (block type, first padding bytes, separator,
+               DigestInfo, digest = last 96 bytes), the 5-value alphabet on the interior FF padding */
+            int nv = byte_values(em[i], all && (c.k < 4096 || i < 12 || i >= K->k - 96), pss, vals);
             for (j = 0; j < nv; j++)
             {
                 c.i = i * 256 + vals[j];
@@ -270,7 +272,7 @@ static void build_groups(void)
 {
     static const int rsabits[4] = { 1024, 2048, 3072, 4096 };
     static const int ecbits[5] = { 192, 224, 256, 384, 521 };
-    int nk = g_thorough ? 4 : 2, ki, h, j;
+    int nk = 4, ki, h, j;
     long p;
 
     /* cheap families first so that a capped run still covers all of them */
@@ -362,6 +364,7 @@ static void build_groups(void)
         for (h = 0; h < H_N; h++)
         {
             if (!HI[h].enabled) continue;
+            if (!g_thorough && bits >= 3072 && h != H_SHA256) continue; /* quick: big keys with sha256 only */
             for (p = 0; p < k; p += step)
             {
                 add_group(F_RSA15, bits, h, V_BYTE, M_BYTE, p, p + step);
@@ -410,12 +413,13 @@ int main(int argc, char **argv)
     g_seed = cfg.seed;
     cfg.bound = g_thorough ?
         "RSA-1024/2048/3072/4096 x {sha1,sha256,sha384,sha512,raw36}: all named variants, all signature truncations, every EM byte position x all 255 other values "
-        "(3072/4096: 255 values for sha256, {00,01,ff,x^01,x^80} for the other hashes); PSS likewise (255 values for 1024/2048 sha256, {00,ff,x^01,x^80} otherwise) + 9x9 salt grid; "
+        "(3072: 255 values for sha256; 4096: 255 values for sha256 on the first 12 and last 96 positions = block type, separator, DigestInfo, digest; "
+        "{00,01,ff,x^01,x^80} elsewhere and for the other hashes); PSS likewise (255 values for 1024/2048 sha256, {00,ff,x^01,x^80} otherwise) + 9x9 salt grid; "
         "ECDSA 10 curve/hash pairs: 9x10 (r,s) grid, 25 DER shapes, every digest byte, every truncation; Ed25519 5 vectors: every bit of R,S,A,msg, S+kL, truncations; "
-        "31 point variants + all truncations per curve; 12 DH values x 3 groups; 28 X25519 inputs; all key blob truncations; positive direction" :
-        "RSA-1024/2048 x {sha1,sha256,sha384,sha512,raw36}: all named variants, every EM byte position x {00,01,ff,x^01,x^80} (PSS: {00,ff,x^01,x^80}), 9x9 PSS salt grid, "
-        "all signature truncations (sha256, raw36); ECDSA 10 curve/hash pairs: 9x10 (r,s) grid, 25 DER shapes, every digest byte, every truncation; Ed25519 5 vectors: every bit of R,S,A,msg, "
-        "S+kL, truncations; 31 point variants + all truncations per curve; 12 DH values x 3 groups; 28 X25519 inputs; all key blob truncations; positive direction";
+        "32 point variants + all truncations per curve; 12 DH values x 3 groups; 28 X25519 inputs; all key blob truncations; positive direction" :
+        "RSA-1024/2048/3072/4096 x {sha1,sha256,sha384,sha512,raw36}: all named EM/signature variants, 9x9 PSS salt grid, all signature truncations (sha256, raw36); "
+        "every EM byte position x {00,01,ff,x^01,x^80} (PSS: {00,ff,x^01,x^80}) for RSA-1024/2048 all hashes and RSA-3072/4096 sha256; ECDSA 10 curve/hash pairs: 9x10 (r,s) grid, 25 DER shapes, every digest byte, every truncation; Ed25519 5 vectors: every bit of R,S,A,msg, "
+        "S+kL, truncations; 32 point variants + all truncations per curve; 12 DH values x 3 groups; 28 X25519 inputs; all key blob truncations; positive direction";
     mx_case_timeout_s = 60;
 
     if (psCryptoOpen(PSCRYPTO_CONFIG) < 0)
@@ -471,7 +475,7 @@ int main(int argc, char **argv)
     mx_note_skipped("RSA PKCS#1 v1.5 SHA-512 signing: psSignHash/privRsaEncryptSignedElement have no SHA-512 DigestInfo (returns PS_UNSUPPORTED_FAIL)");
     if (!g_thorough)
     {
-        mx_note_skipped("quick tier: RSA-3072/4096, full 255-value byte alphabet, truncations for sha1/sha384/sha512 (thorough tier)");
+        mx_note_skipped("quick tier: RSA-3072/4096 byte edits for hashes other than sha256, full 255-value byte alphabet, truncations for sha1/sha384/sha512 (thorough tier)");
     }
     build_groups();
     mx_parallel(ngroups, run_group, NULL);
